@@ -345,8 +345,88 @@ def r9_by_reference(ctx, rule="C12.R9"):
     rep.note(f"{rule}: {len(names)} by-reference methods, {nloc} consumer locals in cardillo/rods")
 
 
+def per_instance_parameters(ctx, rule="C12.R12"):
+    """Each law object owns its stiffnesses: what potential / B_n / B_m / tangents / compliances read through `self` is BOUND in the
+    object's constructor (`self.C_n = np.diag(...)`).  A mutable block declared in a class body and filled in place by the constructor
+    (`np.fill_diagonal(self.C_n, Ei)`, `self.C_n[...] = ...`) is ONE array for all objects of all subclasses: constructing a second law
+    rewrites the stiffness of the first, whose compliances / complementary energy keep their own values (no Legendre pair any more) and
+    whose outputs change with unchanged arguments."""
+    rep = ctx.rep
+    mod = ctx.repo.modules[MM]
+    classes = {n.name: n for n in mod.tree.body if isinstance(n, ast.ClassDef)}
+    INPLACE_FN = {"fill_diagonal", "copyto", "put", "place", "putmask"}
+    INPLACE_M = {"fill", "put", "append", "extend", "update", "setdefault", "itemset", "sort", "resize", "clear", "insert"}
+
+    def mro(c):
+        out, todo = [], [c]
+        while todo:
+            k = todo.pop(0)
+            if k in classes and k not in out:
+                out.append(k)
+                todo += [dotted(b) or "" for b in classes[k].bases]
+        return out
+
+    def self_attr(e):
+        while isinstance(e, ast.Subscript):
+            e = e.value
+        if isinstance(e, ast.Attribute) and isinstance(e.value, ast.Name) and e.value.id == "self":
+            return e.attr
+        return None
+
+    n = 0
+    for cname, cnode in sorted(classes.items()):
+        fns = class_functions(cnode)
+        if "potential" not in fns:
+            continue
+        shared = {}
+        for k in mro(cname):
+            for st in classes[k].body:
+                tg = st.targets if isinstance(st, ast.Assign) else ([st.target] if isinstance(st, ast.AnnAssign) and st.value is not None else [])
+                for t in tg:
+                    if isinstance(t, ast.Name) and isinstance(st.value, (ast.Call, ast.List, ast.Dict, ast.Set, ast.ListComp, ast.DictComp)):
+                        shared.setdefault(t.id, (k, st))
+        C = f"{MM}:{cname}"
+        bound = set()
+        for f in fns.values():
+            for w in ast.walk(f):
+                if isinstance(w, ast.Assign):
+                    for t in w.targets:
+                        for tt in (t.elts if isinstance(t, (ast.Tuple, ast.List)) else [t]):
+                            if isinstance(tt, ast.Attribute) and isinstance(tt.value, ast.Name) and tt.value.id == "self":
+                                bound.add(tt.attr)
+        n += 1
+        bad = False
+        for fname, f in sorted(fns.items()):
+            for w in ast.walk(f):
+                hits = []
+                if isinstance(w, ast.Assign):
+                    hits = [(self_attr(t), "element store") for t in w.targets if isinstance(t, ast.Subscript)]
+                elif isinstance(w, ast.AugAssign):
+                    hits = [(self_attr(w.target), "augmented assignment")]
+                elif isinstance(w, ast.Call):
+                    d = (dotted(w.func) or "").split(".")[-1]
+                    if d in INPLACE_FN and w.args:
+                        hits = [(self_attr(w.args[0]), f"{d}(...)")]
+                    elif isinstance(w.func, ast.Attribute) and w.func.attr in INPLACE_M:
+                        hits = [(self_attr(w.func.value), f".{w.func.attr}(...)")]
+                    hits += [(self_attr(k.value), "out=") for k in w.keywords if k.arg == "out"]
+                for a, how in hits:
+                    if a and a in shared and a not in bound:
+                        k, st = shared[a]
+                        bad = True
+                        rep.bad(rule, C, w, f"`self.{a}` is written in place ({how}) in {cname}.{fname}, but `{a}` is the block declared in the body of class {k} "
+                                f"(`{norm_src(st)[:50]}`) and never bound per object: all laws share ONE array, so constructing another law rewrites this law's stiffness while "
+                                "its compliances / complementary energy keep their values", f"{MM}:{w.lineno}")
+        if not bad:
+            rep.ok(rule, C, f"{len(bound)} parameters bound per object in the constructor ({', '.join(sorted(bound)[:6])}); no class-level block written in place")
+    if n < 2:
+        raise AnalysisError(f"{rule}: fewer than 2 material laws with a potential found in {MM}")
+
+
 def run(ctx):
     rep = ctx.rep
+    rep.rule("C12.R12", "each law object owns its stiffnesses: no mutable block declared in a class body is filled in place by the laws (one array shared by all laws of all subclasses)", 2)
+    per_instance_parameters(ctx)
     rep.rule("C12.R11", "the compliances of a law are the EXACT inverses of its stiffnesses (np.linalg.inv / solve of the same block), not a pseudo-inverse with a rank cut-off: the Legendre dual must exist for every positive stiffness, whatever the ratio between axial and bending stiffness", 2)
     exact_compliances(ctx)
     rep.rule("C12.R10", "the material laws are functions of their arguments: no routine of the laws serves a remembered intermediate (cachetools, closure or instance-attribute memo) whose key omits an argument the intermediate depends on (the reference strains!)", 0)
@@ -548,4 +628,14 @@ MUTANTS += [
 ]
 NEUTRAL += [
     dict(id="c12-n-r11", canary=True, what="Simo1986 builds its compliances with np.linalg.solve(C, I)", file=MM, old='        self.C_n_inv = np.linalg.inv(self.C_n)\n        self.C_m_inv = np.linalg.inv(self.C_m)\n', new='        self.C_n_inv = np.linalg.solve(self.C_n, np.eye(3))\n        self.C_m_inv = np.linalg.solve(self.C_m, np.eye(3))\n'),
+]
+
+MUTANTS += [
+    dict(id="c12-r12-seed", canary=True, what="[seeded by sub-agent] C_n / C_m declared as float blocks in the body of RodMaterialModel and filled in place by Simo1986's constructor",
+         edits=[(MM, '    """Abstract class for rod material models"""\n', '    """Abstract class for rod material models"""\n\n    C_n = np.zeros((3, 3), dtype=float)\n    C_m = np.zeros((3, 3), dtype=float)\n'),
+                (MM, "        self.C_n = np.diag(self.Ei)\n        self.C_m = np.diag(self.Fi)\n\n        self.C_n_inv", "        np.fill_diagonal(self.C_n, self.Ei)\n        np.fill_diagonal(self.C_m, self.Fi)\n\n        self.C_n_inv")], expect="C12.R12"),
+]
+NEUTRAL += [
+    dict(id="c12-n-r12", canary=True, what="Simo1986 builds its stiffness blocks as float arrays filled in place, bound per object", file=MM,
+         old="        self.C_n = np.diag(self.Ei)\n        self.C_m = np.diag(self.Fi)\n\n        self.C_n_inv", new="        self.C_n = np.zeros((3, 3), dtype=float)\n        self.C_m = np.zeros((3, 3), dtype=float)\n        np.fill_diagonal(self.C_n, self.Ei)\n        np.fill_diagonal(self.C_m, self.Fi)\n\n        self.C_n_inv"),
 ]
